@@ -89,6 +89,17 @@ CHECKS = {
             'Stop with ERROR / CANCELLED / SUCCESS at a random step (some while PAUSED), results in flight delivered afterwards; TLC judges '
             'StopAck, NoNewTasksAfterStop, FinishedFrozen, TreeCancelled on every step.',
             ENG_NOTE, ENG_TECH, '5, 7-C11'),
+    'C08': ('engine', 'model_checking',
+            'Programs whose tasks carry retry, wait-before, wait-after, timeout (literal or expression) and fail-on policies, per-attempt '
+            'outcomes from the oracle, under a virtual clock (one third of the runs lets timers fire ahead of pending results); TLC judges '
+            'AttemptBound, StopAtFirstSuccess, FinalIffLast, DelayRespected, WaitBeforeRespected, WaitAfterRespected, TimeoutJudged, '
+            'FailOnApplied over whole recorded runs (creation and completion times of every action execution).',
+            ENG_NOTE, ENG_TECH, '5, 7-C08'),
+    'C12': ('engine', 'model_checking',
+            'Programs run to rest, then an ERROR task is rerun (reset on/off), skipped or rerun twice with a new outcome and run to rest '
+            'again; TLC judges RerunRestores (task, workflow, enclosing workflows and parent tasks RUNNING), RerunReexecutes, '
+            'PartialRerunOnlyFailed, SkipApplied and NoHang after the rerun.',
+            ENG_NOTE, ENG_TECH, '5, 7-C12'),
 }
 
 NOT_YET = 'check not built yet (build in progress; see DESIGN.md section 12)'
